@@ -1,12 +1,16 @@
 (* Wire-level wrappers of property C14: decode arguments from sx, run the model, encode.
    Dispatch.v routes a block of unit numbers here; [k] is the offset inside the block.
 
-   value   : (0) None | (1 z) int | (2 c) candidate | (3 c..) Tie | (4 v..) list | (5 (key v)..) dict
+   value   : (0) None | (1 z) int | (2 c) candidate | (3 c..) Tie | (4 v..) list | (5 (key v)..) dict | (6 num den) Fraction
    tree    : (0 l kind) leaf | (1 c e) PreConverted | (2 e c) PostConverted | (3 e n) FixedSeatCount
              | (4 el e d) Conditioned | (5 e a) ByConstituency | (6 e ae) ByConstituency(distributor apportioner)
              | (7 e a) PreApportioned | (8 e ae) | (9 e) RemovedApportionment | (10 ov al) ByParty | (11 ov)
              | (12 (e..) d) MultistageDistributor | (13 m b) TieBreaking | (14 p) PartyListEvaluator closed
-             | (15 p le c?) open ;  a = (0) | (1 n) | (2 dict-value)
+             | (15 p le c?) open | (16 e) VotingSystem | (17 (e..) (q..) d) UnusedVotesDistributor
+             | (18 c e) AdjustedSeatCount(calculator c) | (19 pe e) AdjustedSeatCount(AllowOverhang(pe))
+             | (20 pe e fuel) AdjustedSeatCount(LevelOverhang(pe)) | (21 e a pre) ByConstituency with a preselector
+             | (22 ce oe e fuel) / (23 ce e fuel) AdjustedSeatCount(LevelOverhangByConstituency(ce, oe | None)) ;
+             a = (0) | (1 n) | (2 dict-value)
    kwrec   : six options  () | (v)   in the order n_seats prev_gains max_seats party_lists list_votes candidate_list
    oracle  : leaf table ((l votes (opt..) result)..), converter table ((c value result)..);
              result = (0 v) | (1 code)
@@ -27,6 +31,7 @@ Fixpoint dec_val (s : sx) : option val :=
   match s with
   | L [A 0] => Some VNone
   | L [A 1; A z] => Some (VInt z)
+  | L [A 6; A n; A (Zpos d)] => Some (of_q (n # d))
   | L [A 2; A (Zpos c)] => Some (VKey (KC c))
   | L (A 3 :: cs) => match opt_map as_pos cs with Some t => Some (VKey (KT t)) | None => None end
   | L (A 4 :: vs) =>
@@ -57,6 +62,7 @@ Fixpoint enc_val (v : val) : sx :=
   | VKey k => enc_key k
   | VList l => L (A 4 :: map enc_val l)
   | VDict d => L (A 5 :: map (fun kv => L [enc_key (fst kv); enc_val (snd kv)]) d)
+  | VRat q => L [A 6; A (Qnum q); A (Zpos (Qden q))]
   end.
 
 Fixpoint val_eqb (a b : val) : bool :=
@@ -78,6 +84,7 @@ Fixpoint val_eqb (a b : val) : bool :=
          | (k, p) :: x', (k', q) :: y' => key_eqb k k' && val_eqb p q && go x' y'
          | _, _ => false
          end) x y
+  | VRat x, VRat y => Qeq_bool x y
   | _, _ => false
   end.
 
@@ -134,6 +141,24 @@ Fixpoint dec_ev (s : sx) : option ev :=
   | L [A 15; p; le; L []] => match dec_ev p, dec_ev le with Some p', Some l' => Some (PListO p' l' None) | _, _ => None end
   | L [A 15; p; le; L [A (Zpos c)]] =>
       match dec_ev p, dec_ev le with Some p', Some l' => Some (PListO p' l' (Some c)) | _, _ => None end
+  | L [A 16; e] => match dec_ev e with Some e' => Some (VSys e') | None => None end
+  | L [A 17; L rs; qs; d] =>
+      match (fix go (l : list sx) : option (list ev) :=
+               match l with
+               | [] => Some []
+               | x :: r => match dec_ev x, go r with Some e, Some es => Some (e :: es) | _, _ => None end
+               end) rs, as_listof as_pos qs, as_nat d with
+      | Some rs', Some qs', Some d' => Some (Unused rs' qs' d') | _, _, _ => None end
+  | L [A 18; A (Zpos c); e] => match dec_ev e with Some e' => Some (AdjLeaf c e') | None => None end
+  | L [A 19; pe; e] => match dec_ev pe, dec_ev e with Some p', Some e' => Some (AdjAllow p' e') | _, _ => None end
+  | L [A 20; pe; e; f] => match dec_ev pe, dec_ev e, as_nat f with
+                          | Some p', Some e', Some f' => Some (AdjLevel p' e' f') | _, _, _ => None end
+  | L [A 21; e; a; pre] => match dec_ev e, dec_aspec a, dec_ev pre with
+                           | Some e', Some a', Some p' => Some (ByConsP e' a' p') | _, _, _ => None end
+  | L [A 22; ce; oe; e; f] => match dec_ev ce, dec_ev oe, dec_ev e, as_nat f with
+                              | Some c', Some o', Some e', Some f' => Some (AdjLevelC c' o' e' f') | _, _, _, _ => None end
+  | L [A 23; ce; e; f] => match dec_ev ce, dec_ev e, as_nat f with
+                          | Some c', Some e', Some f' => Some (AdjLevelC0 c' e' f') | _, _, _ => None end
   | _ => None
   end.
 
@@ -211,9 +236,12 @@ Fixpoint node_info (t : ev) : list sx :=
   let me := L [of_bool (acc_seats t); of_bool (acc_prev t); enc_sig (sig_of t)] in
   me :: match t with
         | Leaf _ _ => []
-        | PreConv _ e | PostConv e _ | Fixed e _ | RemApp e | PreApp e _ | ByCons e _ | ByPartyS e | PListC e => node_info e
-        | Cond a b _ | ByConsD a b | PreAppD a b | ByParty a b | TieBr a b | PListO a b _ => node_info a ++ node_info b
-        | Multi rs _ => flat_map node_info rs
+        | PreConv _ e | PostConv e _ | Fixed e _ | RemApp e | PreApp e _ | ByCons e _ | ByPartyS e | PListC e
+        | VSys e | AdjLeaf _ e => node_info e
+        | Cond a b _ | ByConsD a b | PreAppD a b | ByParty a b | TieBr a b | PListO a b _
+        | AdjAllow a b | AdjLevel a b _ | ByConsP a _ b | AdjLevelC0 a b _ => node_info a ++ node_info b
+        | AdjLevelC a b c _ => node_info a ++ node_info b ++ node_info c
+        | Multi rs _ | Unused rs _ _ => flat_map node_info rs
         end.
 
 Definition u_c14 (k : Z) (a : sx) : sx :=
@@ -239,11 +267,12 @@ Definition u_c14 (k : Z) (a : sx) : sx :=
       | _ => bad_input
       end
   | 2 =>
-      (* (tree kwrec) -> (wt faithful fits (node-info..)) *)
+      (* (tree kwrec) -> (wt faithful fits-and-seat_fits (node-info..) seated) *)
       match a with
       | L [t; sa] =>
           match dec_ev t, dec_kwrec sa with
-          | Some t', Some sa' => ok (L [of_bool (wt t'); of_bool (faithful t'); of_bool (fits t' sa'); L (node_info t')])
+          | Some t', Some sa' => ok (L [of_bool (wt t'); of_bool (faithful t'); of_bool (fits t' sa' && seat_fits t' sa');
+                                        L (node_info t'); of_bool (seated t')])
           | _, _ => bad_input
           end
       | _ => bad_input
@@ -281,7 +310,8 @@ Definition u_c14 (k : Z) (a : sx) : sx :=
       | _ => bad_input
       end
   | 5 =>
-      (* shared parts: (0 votes) VoteTotals ; (1 votes subset) SubsettedVotes ; (2 d1 d2) add_dict_to_dict *)
+      (* shared parts: (0 votes) VoteTotals ; (1 votes subset) SubsettedVotes ; (2 d1 d2) add_dict_to_dict ;
+         (3 votes) / (4 votes subset) the declarative definitions totals_s / subset_s of the spec side *)
       match a with
       | L [A 0; v] => match dec_val v with Some v' => enc_res (vote_totals v') | None => bad_input end
       | L [A 1; v; s] => match dec_val v, dec_val s with
@@ -289,6 +319,9 @@ Definition u_c14 (k : Z) (a : sx) : sx :=
       | L [A 2; x; y] => match dec_val x, dec_val y with
                          | Some (VDict x'), Some (VDict y') => enc_res (add_dict x' y' >>= fun r => Ok (VDict r))
                          | _, _ => bad_input end
+      | L [A 3; v] => match dec_val v with Some v' => enc_res (totals_s v') | None => bad_input end
+      | L [A 4; v; s] => match dec_val v, dec_val s with
+                         | Some v', Some s' => enc_res (subset_s v' s') | _, _ => bad_input end
       | _ => bad_input
       end
   | _ => bad_input
